@@ -58,8 +58,13 @@ type CrashPoint struct {
 	policy  func(string) bool
 	merge   bool
 	full    bool
+	noTorn  bool
 	imgs    map[int][]Image
 }
+
+// SetNoTorn restricts the per-file images to whole-operation prefixes (no torn
+// appends). Must be called before Images/Patterns.
+func (cp *CrashPoint) SetNoTorn(v bool) { cp.noTorn = v; cp.imgs = map[int][]Image{} }
 
 // CrashAt analyses the state of the disk after the first k events. full selects
 // the complete (R,L) grid for torn appends, otherwise L is restricted to {R, C}.
@@ -212,7 +217,7 @@ func (cp *CrashPoint) Images(ino int) []Image {
 		e := st.ops[j]
 		return e.Kind == EvWrite && !e.Atomic && e.Off == int64(len(states[j]))
 	}
-	for j := 0; j < n; j++ {
+	for j := 0; j < n && !cp.noTorn; j++ {
 		if !isAppend(j) || (j > 0 && isAppend(j-1)) {
 			continue
 		}
